@@ -120,3 +120,11 @@ for _k, _fn, _st in (("footnote", "mmd_export_footnote_list_html", "used_footnot
       bounds={"used notes": 1, "blocks in the note's content": "0..3 (types symbolic)", "unwind": 6}, functions=[_fn],
       callees={"mmd_export_token_tree_html": "contract stub: requires footnote_para_counter == number of BLOCK_PARA blocks of the content", "DString, pad, mmd_print_string_html": "no-op stubs", "stack_peek_index/stack_new": "body"},
       min_obligations=8, timeout=300, cost=8, assumptions=[NOFAIL, "srand/rand: stubs (values irrelevant here)"])
+
+# ---- a captioned table's cross-reference is registered under the label the writers print (one shared rule; writers' side: c02_table_caption_*)
+U("c10_table_link_label", ["C10"], "h_table_link", ["C10/table_link.c"], ["writer.c", "d_string.c"], plain=True, lib=("lib/libc_models.c",), kind="finite",
+  defines=["-DI18N_DISABLED=1"], drop_bodies=["table_has_caption", "label_from_token", "link_new"],
+  pre_instrument=["--remove-function-body-regex", "^(?!process_table_to_link$|table_has_caption$|label_from_token$|link_new$|stack_push$|d_string_.*$|ensureStringBufferCanHold$|strlen$|memcpy$|h_table_link$|mk$|verif_.*$|__CPROVER.*$).*"],
+  cbmc_flags=["--unwind", "70", "--unwinding-assertions"], bounds={"caption paragraph": "[caption], [caption][label] or [caption] [label]"},
+  functions=["process_table_to_link", "d_string_new", "d_string_append", "d_string_free"], callees={"table_has_caption, label_from_token, link_new, stack_push": "contract stubs recording their arguments"},
+  min_obligations=10, timeout=300, cost=10, assumptions=[NOFAIL])
